@@ -19,6 +19,7 @@ func propC03(r *Report, tier string) {
 	rulePersisterLoopAck(r, "K5-ack-after-persist")
 	rulePrepareSegmentWaits(r, "K5-batch-waits")
 	ruleMarkBeforeCreate(r, "K5-mark-before-create")
+	ruleUnmarkAfterCommit(r, "K5-unmark-after-commit")
 	ruleInMemoryMergeCoverage(r, "K14-memmerge-coverage")
 	ruleBoltKeyAgreement(r, "K11-bolt-keys")
 	ruleOpenPhaseOrder(r, "K5-open-phase")
